@@ -134,10 +134,80 @@ fn native_strategy() -> impl Strategy<Value = NativeCase> {
 pub fn run(ctx: &Ctx) {
     *ctx.max_shrink_iters.borrow_mut() = 40;
     ctx.prop("native", ctx.share(ctx.scale(240, 2400)), native_strategy(), |c| eval_native(ctx, c));
+    // pools left idle: short gaps on every worker; one long gap per native worker (quick: 6.5 s on worker 0; thorough: 6.5 / 16 / 31 / 61 s) - a worker that
+    // gives up waiting for work after some interval is only seen by a pool that has been idle for longer than that
+    ctx.set_section("native-after-idle");
+    let mut cases: Vec<IdleCase> = vec![];
+    for (i, ms) in [0u64, 5, 50, 300, 1100].iter().enumerate() { cases.push(IdleCase { n: 2 + (i + ctx.worker as usize) % 4, warm: i % 3, idle_ms: *ms }); }
+    let long: Option<u64> = if ctx.tier == Tier::Thorough { [6500u64, 16_000, 31_000, 61_000].get(ctx.worker as usize).copied() } else if ctx.worker == 0 { Some(6500) } else { None };
+    if let Some(ms) = long { cases.push(IdleCase { n: 3, warm: 2, idle_ms: ms }); cases.push(IdleCase { n: 2, warm: 0, idle_ms: ms }); }
+    // the long cases of one worker run side by side (they sleep most of the time)
+    let verdicts: Vec<(IdleCase, Verdict)> = std::thread::scope(|sc| { let hs: Vec<_> = cases.iter().map(|c| { let c = c.clone(); sc.spawn(move || { let v = match idle_round(&c) { Some(true) => None, _ => Some(()) }; (c, v) }) }).collect(); hs.into_iter().map(|h| h.join().unwrap()).map(|(c, suspicious)| { let v = if suspicious.is_none() { Verdict::passc(true, vec!["native-after-idle"]) } else { eval_idle(ctx, &c) }; (c, v) }).collect() });
+    for (c, v) in verdicts { let cc = c.clone(); ctx.count(&v, hash64(&format!("{:?}", c)), || serde_json::to_value(&cc).unwrap()); }
+}
+
+/// A pool that has been idle for `idle_ms` (nothing submitted since it was built, or since `warm` instant tasks finished) must still run N tasks at a
+/// time. N-1 tasks block on a gate the harness holds; one more task only reports. Causal verdict, no timer decides: the report arrives while the gate
+/// is closed (pass); or it arrives only after the gate has been opened - it waited behind the blocked tasks although a worker should have been free -
+/// seen on two pools in a row (violation); anything else is inconclusive.
+#[derive(Clone, Debug, Serialize, Deserialize)]
+pub struct IdleCase { pub n: usize, pub warm: usize, pub idle_ms: u64 }
+
+struct Gate { open: Mutex<bool>, cv: Condvar }
+
+fn idle_round(c: &IdleCase) -> Option<bool> {
+    let n = c.n.max(2);
+    let pool = ThreadPool::new(n);
+    let (wtx, wrx) = std::sync::mpsc::channel::<()>();
+    for _ in 0..c.warm { let wtx = wtx.clone(); pool.execute(move || { let _ = wtx.send(()); }); }
+    for _ in 0..c.warm { if wrx.recv_timeout(Duration::from_secs(30)).is_err() { std::mem::forget(pool); return None; } }
+    std::thread::sleep(Duration::from_millis(c.idle_ms));
+    let gate = Arc::new(Gate { open: Mutex::new(false), cv: Condvar::new() });
+    let (tx, rx) = std::sync::mpsc::channel::<usize>();
+    for i in 0..n - 1 {
+        let gate = gate.clone(); let tx = tx.clone();
+        pool.execute(move || { let mut g = gate.open.lock().unwrap(); let deadline = std::time::Instant::now() + Duration::from_secs(60); while !*g { let left = deadline.saturating_duration_since(std::time::Instant::now()); if left.is_zero() { break; } g = gate.cv.wait_timeout(g, left).unwrap().0; } drop(g); let _ = tx.send(i); });
+    }
+    { let tx = tx.clone(); pool.execute(move || { let _ = tx.send(usize::MAX); }); }
+    drop(tx);
+    // phase 1: the gate is closed; only the reporting task can answer
+    let first = rx.recv_timeout(Duration::from_secs(5));
+    *gate.open.lock().unwrap() = true; gate.cv.notify_all();
+    let verdict = match first {
+        Ok(usize::MAX) => Some(true),
+        Ok(_) => None, // a gated task reported before the gate was opened: the harness's own gate failed
+        Err(_) => {
+            // phase 2: gate open - does the report arrive now?
+            let mut seen = false;
+            let deadline = std::time::Instant::now() + Duration::from_secs(20);
+            while let Ok(v) = rx.recv_timeout(deadline.saturating_duration_since(std::time::Instant::now()).max(Duration::from_millis(1))) { if v == usize::MAX { seen = true; break; } }
+            if seen { Some(false) } else { None }
+        }
+    };
+    // let the gated tasks finish before the pool is leaked (its workers stay blocked in recv)
+    let deadline = std::time::Instant::now() + Duration::from_secs(5);
+    while rx.recv_timeout(deadline.saturating_duration_since(std::time::Instant::now()).max(Duration::from_millis(1))).is_ok() {}
+    std::mem::forget(pool);
+    verdict
+}
+
+pub fn eval_idle(ctx: &Ctx, c: &IdleCase) -> Verdict {
+    if NATIVE_POISONED.load(Ordering::SeqCst) { return Verdict::pass(false); }
+    crate::rws_verif_hooks::set_pool_event_callback(None);
+    match idle_round(c) {
+        Some(true) => Verdict::passc(true, vec!["native-after-idle"]),
+        Some(false) => match idle_round(c) {
+            Some(false) => ctx.judge(vec![("task-waited-behind-blocked-tasks-after-idle".to_string(), format!("pool of {} workers, {} warm-up tasks, then idle for {} ms: with {} tasks blocked on a gate the one remaining task was executed only after the gate had been opened (observed on two pools in a row) - fewer than {} tasks run at a time", c.n, c.warm, c.idle_ms, c.n - 1, c.n))], true, vec!["native-after-idle"]),
+            Some(true) => { ctx.inconclusive("idle-pool observation was not repeatable"); Verdict::Discard }
+            None => { ctx.inconclusive("idle-pool run did not complete"); Verdict::Discard }
+        },
+        None => { ctx.inconclusive("idle-pool run did not complete"); Verdict::Discard }
+    }
 }
 
 /// Replay: native cases here; shuttle cases through the sched binary (schedule string + configuration).
 pub fn replay(ctx: &Ctx, section: &str, case: &Value) -> Verdict {
+    if section == "native-after-idle" { return match serde_json::from_value::<IdleCase>(case.clone()) { Ok(c) => eval_idle(ctx, &c), Err(e) => Verdict::fail("replay-unreadable", e.to_string()) }; }
     if section == "native" { return match serde_json::from_value::<NativeCase>(case.clone()) { Ok(c) => eval_native(ctx, &c), Err(e) => Verdict::fail("replay-unreadable", e.to_string()) }; }
     replay_sched(ctx, section, case)
 }
